@@ -43,7 +43,7 @@ claim("C04", "other",
       "variant-conditioned abstract interpretation + dominance/value-flow rules on MIR (custom rustc_private lint)")
 
 claim("C02", "other",
-      "Decides structural necessary conditions over ALL protocol-building code (mpc/**, optimizer/**), hence for every compiled program: Send annotations are only placed on nop() results (C02.S, 44 sites); every protocol nop() receives a Send (C02.N); elements of a 3-out-of-3 zero sharing never reach a function's result un-sent (C02.Z - reports the known finding in mpc_psi); every Operation variant translated by an interactive protocol has its dependencies reshared by the planner and a marked node enters the mapping only via reshare() (C02.K, per variant by abstract interpretation); the de-duplication key contains annotations, annotated nodes are never folded and the meta-operation pass never lets getters see through an annotated NOP (C02.O); literal party indices are valid (C02.P); the inliner puts a body's Send annotations on every inlined copy (C02.I); ownership typing of the truncation protocols, oblivious transfer (all six role assignments) and the bit-by-public-integer product (C02.W). That every value a party uses is derivable by that party (a per-node ownership type) is NOT decided.",
+      "Decides structural necessary conditions over ALL protocol-building code (mpc/**, optimizer/**), hence for every compiled program: Send annotations are only placed on nop() results (C02.S, 44 sites); every protocol nop() receives a Send (C02.N); elements of a 3-out-of-3 zero sharing never reach a function's result un-sent (C02.Z - reports the known finding in mpc_psi); every Operation variant translated by an interactive protocol has its dependencies reshared by the planner and a marked node enters the mapping only via reshare() - for every Operation variant, with the membership tests taken to be true, every path to the mapping passes through reshare() or a multiplication told to reshare (C02.K, per variant by abstract interpretation); the de-duplication key contains annotations, annotated nodes are never folded and the meta-operation pass never lets getters see through an annotated NOP (C02.O); literal party indices are valid (C02.P); the inliner puts a body's Send annotations on every inlined copy (C02.I); ownership typing of the truncation protocols, oblivious transfer (all six role assignments) and the bit-by-public-integer product (C02.W). That every value a party uses is derivable by that party (a per-node ownership type) is NOT decided.",
       "DESIGN.md section 3, C02",
       "Trusted: the may-value-flow engine (imprecision can only add producers, i.e. cause a report), the exceptions table for un-sent NOPs (1 entry), the list of interactive helpers, MIR construction.",
       "builder value-flow (producer sets, taint) + variant-conditioned abstract interpretation over MIR (custom rustc_private lint)")
